@@ -76,6 +76,8 @@ def run_views(chk, model, cases, suite):
             reqs += [(5, sx), (4, sx)]
             chk.hist("prefix", "raise-%s" % (got_prefix[1],) if got_prefix[0] else "ok")
             grammar = c.grammar
+            if grammar and got_prefix[0] != 0:
+                chk.fail("prefix-raised", {"side": side}, {"got": got_prefix})
             if grammar and got_prefix[0] == 0:
                 # by construction: the text before the first wildcard
                 want = ml.render_prefix(atoms, env)
@@ -435,6 +437,7 @@ def run(chk, runner_ok):
     run_views(chk, model, [ml.gen_case(rng, loose=True) for _ in range(chk.n(1500, 10000))], "VIEWS-loose")
     ml.run_stateful(chk, model, chk.n(500, 5000))
     run_adjacent(chk, model)
+    ml.run_wild_first(chk, model, chk.n(150, 1500))
     ml.run_equality(chk, model, chk.n(600, 6000))
     run_expand(chk, model)
     run_android(chk, model)
